@@ -198,8 +198,10 @@ class EventSeriesClimateNetwork(EventSeries, ClimateNetwork):
     def __cache_state__(self):
         #  state of BOTH parent classes (the method resolution order would
         #  otherwise hide the mutation counters of ClimateNetwork)
+        #  (the network part does not exist yet while the events are analysed)
         return (EventSeries.__cache_state__(self)
-                + ClimateNetwork.__cache_state__(self))
+                + (ClimateNetwork.__cache_state__(self)
+                   if hasattr(self, "_mut_A") else ()))
 
     def __str__(self):
         """
